@@ -269,6 +269,13 @@ def _setup(b, case):
 c.setup(_setup)
 c.ensures('one-more-operand-on-top-nothing-lost', 'len(self._stack) == _depth + 1 and self._stack[-1] is value')
 
+c = contract(ES, 'EvalStack.clear', serves=['C02', 'C17', 'C01'])
+def _setup(b, case):
+    es, depth = _eval_stack(b)
+    return {'self': es}
+c.setup(_setup)
+c.ensures('no-operand-of-an-earlier-run-left', 'len(self._stack) == 0')
+
 c = contract(ES, 'push_pop', serves=['C02', 'C01'], name='lemma:push a; push b; pop; pop at any depth', src='''
 def push_pop(es, a, b):
     es.push(a)
